@@ -254,7 +254,7 @@ pub fn build(ctrl: u8, function: u8, cap: usize, obj: &Obj, raw: bool) -> Result
             Some(f) => f,
             None => return Err("badspec".to_string()),
         };
-        let mut buf = vec![0u8; cap];
+        let mut buf = vec![0xA5u8; cap];
         let mut cursor = WriteCursor::new(&mut buf);
         let mut writer: HeaderWriter = match start_request(ControlField::from(ctrl), function, &mut cursor) {
             Ok(w) => w,
@@ -315,7 +315,7 @@ pub enum TaskSpec {
 /// what `MasterSession::send_request` does for a task: `start_request(ControlField::request(seq), task.function())`,
 /// then `RequestWriter::write`
 fn format_request(task: &NonReadTask, seq: u8, cap: usize) -> Result<Vec<u8>, String> {
-    let mut buf = vec![0u8; cap];
+    let mut buf = vec![0xA5u8; cap];
     let mut cursor = WriteCursor::new(&mut buf);
     let mut hw = match start_request(ControlField::request(Sequence::new(seq)), RequestWriter::function(task), &mut cursor) {
         Ok(w) => w,
